@@ -96,6 +96,16 @@ def strip_empty_spec_constants(tree):
     for n in ast.walk(tree):
         if isinstance(n, ast.FormattedValue) and isinstance(n.format_spec, ast.JoinedStr):
             n.format_spec.values = [v for v in n.format_spec.values if not (isinstance(v, ast.Constant) and v.value == "")]
+            # ... and it splits the spec's text at a \N{...} escape into two adjacent constants (in literal text it
+            # merges them): adjacent constants of a spec are joined, spans included, on both sides
+            merged = []
+            for v in n.format_spec.values:
+                if merged and isinstance(v, ast.Constant) and isinstance(merged[-1], ast.Constant) and isinstance(v.value, str) and isinstance(merged[-1].value, str):
+                    a = merged[-1]
+                    merged[-1] = ast.Constant(value=a.value + v.value, kind=getattr(a, "kind", None), lineno=a.lineno, col_offset=a.col_offset, end_lineno=v.end_lineno, end_col_offset=v.end_col_offset)
+                else:
+                    merged.append(v)
+            n.format_spec.values = merged
     return tree
 
 
